@@ -3,3 +3,6 @@ pub mod core;
 pub mod props;
 pub mod util;
 pub mod sim;
+pub mod rows;
+pub mod simmeta;
+pub mod gen;
